@@ -205,6 +205,24 @@ def ij_type(rd, rs1, imm, *, opcode, funct3):
     return code
 
 
+# i-type variation for CSR instructions (imm is the unsigned 12-bit CSR address)
+def ic_type(rd, rs1, imm, *, opcode, funct3):
+    rd = lookup_register(rd)
+    rs1 = lookup_register(rs1)
+
+    if imm < 0 or imm > 0xfff:
+        raise ValueError('12-bit CSR address must be between 0x000 (0) and 0xfff (4095): {}'.format(imm))
+
+    code = 0
+    code |= opcode
+    code |= rd << 7
+    code |= funct3 << 12
+    code |= rs1 << 15
+    code |= imm << 20
+
+    return code
+
+
 def s_type(rs1, rs2, imm, *, opcode, funct3):
     rs1 = lookup_register(rs1)
     rs2 = lookup_register(rs2)
@@ -764,12 +782,12 @@ EBREAK     = partial(i_type,   opcode=0b1110011, funct3=0b000, rd=0, rs1=0, imm=
 FENCE_I    = partial(i_type,   opcode=0b0001111, funct3=0b001, rd=0, rs1=0, imm=0)  # special syntax
 
 # RV32/RV64 "Zicsr" Control and Status Register (CSR) Instructions
-CSRRW      = partial(i_type,   opcode=0b1110011, funct3=0b001)
-CSRRS      = partial(i_type,   opcode=0b1110011, funct3=0b010)
-CSRRC      = partial(i_type,   opcode=0b1110011, funct3=0b011)
-CSRRWI     = partial(i_type,   opcode=0b1110011, funct3=0b101)
-CSRRSI     = partial(i_type,   opcode=0b1110011, funct3=0b110)
-CSRRCI     = partial(i_type,   opcode=0b1110011, funct3=0b111)
+CSRRW      = partial(ic_type,  opcode=0b1110011, funct3=0b001)
+CSRRS      = partial(ic_type,  opcode=0b1110011, funct3=0b010)
+CSRRC      = partial(ic_type,  opcode=0b1110011, funct3=0b011)
+CSRRWI     = partial(ic_type,  opcode=0b1110011, funct3=0b101)
+CSRRSI     = partial(ic_type,  opcode=0b1110011, funct3=0b110)
+CSRRCI     = partial(ic_type,  opcode=0b1110011, funct3=0b111)
 
 # RV32M Standard Extension for Integer Multiplication and Division
 MUL        = partial(r_type,   opcode=0b0110011, funct3=0b000, funct7=0b0000001)
